@@ -88,6 +88,13 @@ PROGRAMS = {
         S("call", "@f"), S("add", "a0", "a0", "a4"), S("li", "a7", 1), S("ecall"), S("li", "a7", 10), S("ecall"),
         S("add", "a0", "t0", "t1", lab="f"), S("add", "a0", "a0", "t6"), S("ret"),
     ],
+    "several-returns": [          # a function with two returns (the second becomes a jump to the exit) next to one that takes a1
+        S("li", "a0", 0, lab="start"), S("call", "@foo"), S("li", "a1", 4), S("call", "@combine"), S("li", "a7", 1), S("ecall"),
+        S("li", "a7", 10), S("ecall"),
+        S("beq", "a0", "zero", "@foo_else", lab="foo"), S("li", "a0", 1), S("ret"),
+        S("li", "a1", 9, lab="foo_else"), S("li", "a0", 2), S("ret"),
+        S("add", "a0", "a0", "a1", lab="combine"), S("ret"),
+    ],
     "two-functions": [
         S("li", "a0", 3, lab="start"), S("jal", "ra", "@g"), S("mv", "s2", "a0"), S("call", "@h"), S("add", "a0", "a0", "s2"),
         S("li", "a7", 10), S("ecall"),
